@@ -163,12 +163,28 @@ def check(ctx, rep):
             rule, why = "D-INDEX-TYPE", "the index is a widening cast of a value whose type cannot reach the constant length of the array"
         if rule is None and kind == "assert" and s["msg"] == "Overflow" and const_arith_is_safe(prog, s):
             rule, why = "D-CONST", "arithmetic on two constants that does not overflow"
+        if rule is None and kind == "assert" and const_condition_holds(prog, s):
+            rule, why = "D-CONST", "the asserted condition is computed from two constants and holds (division by a non-zero constant)"
+        if rule is None and kind == "assert" and s["msg"] == "Overflow" and "Add" in s["detail"] and remainder_add_is_safe(prog, s):
+            rule, why = "D-REM", "a constant added to a remainder by a constant (or to a value just tested to be below one): fits the type"
         if rule is None and why is None and (kind == "index" or (kind == "assert" and s["msg"] == "BoundsCheck")) and not fam_of.get(owner):
             # an index / slice expression in a function no table covers: whether the index is in range is a property of
             # values that no rule here decides; reported as undecided, not as a violation (hand-written scanning code
             # is full of such sites and is usually right)
             rep.inconc("INVENTORY: index site in %s is not covered by any table (%s)" % (owner, s["detail"][:80]), where)
             continue
+        if rule is None and why is None and kind == "assert" and s["msg"] in ("Overflow", "BoundsCheck", "DivisionByZero", "RemainderByZero"):
+            # arithmetic no rule here bounds: a concrete run of the enclosing function decides when it can (a panic is a
+            # genuine violation with its input); otherwise the site stays undecided rather than reported
+            w = arithmetic_witness(prog, owner)
+            if w and w[0] == "no-panic":
+                rep.inconc("INVENTORY: %s %s in %s is not discharged by any rule; %d concrete runs of %s reach no panic" % (
+                    kind, s["detail"][:80], owner, w[1], w[2]), where)
+                continue
+            if w and w[0] == "panic":
+                rep.fail("INVENTORY", "%s" % site_key(s), "undischarged panic site: %s %s — %s panics on %s" % (
+                    kind, s["detail"], w[2], w[1]), where=where, example=w[1])
+                continue
         if rule is None:
             rep.fail("INVENTORY", "%s" % site_key(s), "undischarged panic site: %s %s%s" % (
                 kind, s["detail"], (" — " + why) if why else ""), where=where)
@@ -186,6 +202,162 @@ def check(ctx, rep):
 
 
 E_ENTRIES = ("Version::parse", "range::Range::parse")
+
+
+_WITNESS_MEMO = {}
+
+
+def arithmetic_witness(prog, owner):
+    """run the function that owns a panic site (for a closure: the function it is written in) on concrete arguments when
+    all its parameters are integers, &str, bool, char or a &mut Formatter. Returns ("panic", input text, function),
+    ("no-panic", number of runs, function) or None when the function cannot be run this way."""
+    import itertools
+    from ..interp import Interp, Policy, StrV
+    from ..models import Formatter, concrete_u64_parse
+    fn = owner.split("::{closure")[0]
+    if fn in _WITNESS_MEMO:
+        return _WITNESS_MEMO[fn]
+    res = None
+    if fn in prog.bodies and not prog.bodies[fn].get("type_params"):
+        body = prog.bodies[fn]
+        ints = [0, 1, 9, 10, 255, (1 << 32) + 5, 900719925474099, 10 ** 19, (1 << 64) - 1]
+        strs = ["0", "7", "10", "007", "18446744073709551615", "18446744073709551616", "99999999999999999999",
+                "00000000000000000000", "123456789012345678901", "a", "", "1a"]
+        per = []
+        for i in range(body["arg_count"]):
+            t = prog.types[body["locals"][i + 1]]
+            ts = prog.ty_str(body["locals"][i + 1])
+            if t.get("k") == "int":
+                top = (1 << (t.get("bits", 64) - (1 if t.get("signed") else 0))) - 1
+                per.append([("%d" % v, v) for v in ints if v <= top])
+            elif ts == "&str":
+                per.append([(repr(v), StrV(v)) for v in strs])
+            elif ts == "bool":
+                per.append([("false", False), ("true", True)])
+            elif ts == "char":
+                per.append([(repr(c), ord(c)) for c in "09a-."])
+            elif ts.startswith("&mut std::fmt::Formatter"):
+                per.append([("fmt", "FMT")])
+            else:
+                per = None
+                break
+        if per is not None and body["arg_count"] > 0:
+            runs = 0
+            for combo in itertools.islice(itertools.product(*per), 400):
+                pol = Policy()
+                pol.witness = True
+                pol.str_parse = concrete_u64_parse
+                it = Interp(prog, pol)
+                args = [Ptr(Cell(Formatter())) if v == "FMT" else (Ptr(Cell(v)) if isinstance(v, StrV) else v) for _, v in combo]
+                try:
+                    it.call_body(fn, args)
+                    runs += 1
+                except Panic:
+                    res = ("panic", "%s(%s)" % (fn, ", ".join(n for n, _ in combo)), fn)
+                    break
+                except Inconclusive:
+                    continue
+            if res is None and runs:
+                res = ("no-panic", runs, fn)
+    _WITNESS_MEMO[fn] = res
+    return res
+
+
+def const_condition_holds(prog, s):
+    """an assertion whose condition is computed in the same block from two constants (`10 == 0` in front of a division by
+    the constant 10) and evaluates to the expected value: it can never fail"""
+    body = prog.bodies[s["owner"]]
+    bb = body["blocks"][s["bb"]]
+    tm = bb["term"]
+    if tm["k"] != "assert":
+        return False
+    c = tm["cond"].get("move") or tm["cond"].get("copy")
+    if not c or c["p"]:
+        return False
+    for st in reversed(bb["stmts"]):
+        if st["k"] == "assign" and not st["place"]["p"] and st["place"]["l"] == c["l"]:
+            rv = st["rv"]
+            if rv.get("k") != "binop" or rv["op"] not in ("Eq", "Ne", "Lt", "Le", "Gt", "Ge"):
+                return False
+            a, b = rv["a"].get("const"), rv["b"].get("const")
+            if not (a and b and a.get("kind") == "int" and b.get("kind") == "int"):
+                return False
+            x, y = int(a["v"]), int(b["v"])
+            val = {"Eq": x == y, "Ne": x != y, "Lt": x < y, "Le": x <= y, "Gt": x > y, "Ge": x >= y}[rv["op"]]
+            return val == tm["expected"]
+    return False
+
+
+def remainder_add_is_safe(prog, s):
+    """Overflow(Add, const k, x) — or (x, const k) — where x is `(y % c)` for a constant c, possibly narrowed by a cast, or a
+    narrowing of a value that the only way into this block has just tested to be `< c`: x <= c - 1, and k + c - 1 fits"""
+    body = prog.bodies[s["owner"]]
+    blocks = body["blocks"]
+    bb = blocks[s["bb"]]
+    add = None
+    for st in reversed(bb["stmts"]):
+        if st["k"] == "assign" and st["rv"].get("k") == "binop" and st["rv"]["op"] == "AddWithOverflow":
+            add = st["rv"]
+            break
+    if add is None:
+        return False
+    ka, kb = add["a"].get("const"), add["b"].get("const")
+    if bool(ka) == bool(kb):
+        return False
+    k = int((ka or kb)["v"])
+    x = add["b"] if ka else add["a"]
+    t = prog.types[add["ty"]]
+    if t.get("signed"):
+        return False
+    hi = (1 << t.get("bits", 64)) - 1
+
+    def opl(o):
+        y = o.get("copy") or o.get("move")
+        return y["l"] if y and not y["p"] else None
+
+    def defs_in_block(l):
+        return [st["rv"] for st in bb["stmts"] if st["k"] == "assign" and not st["place"]["p"] and st["place"]["l"] == l]
+    l = opl(x)
+    bound = None
+    for _ in range(4):
+        d = defs_in_block(l)
+        if len(d) != 1:
+            break
+        rv = d[0]
+        if rv.get("k") == "binop" and rv["op"] == "Rem" and rv["b"].get("const") and int(rv["b"]["const"]["v"]) >= 1:
+            bound = int(rv["b"]["const"]["v"]) - 1
+            break
+        if rv.get("k") == "cast" and rv.get("kind") == "IntToInt":
+            l = opl(rv["op"])
+            continue
+        if rv.get("k") == "use":
+            l = opl(rv["op"])
+            continue
+        break
+    if bound is None and l is not None:
+        # guarded: the single predecessor of this block branches on `l < c` (true edge leads here), l not written since
+        preds = [i for i, b2 in enumerate(blocks) if s["bb"] in flow.successors(body, i)]
+        if len(preds) == 1:
+            pb = blocks[preds[0]]
+            tm = pb["term"]
+            if tm["k"] == "switch":
+                d = opl(tm["discr"])
+                for st in pb["stmts"]:
+                    if st["k"] == "assign" and not st["place"]["p"] and st["place"]["l"] == d and st["rv"].get("k") == "binop" \
+                            and st["rv"]["op"] == "Lt" and st["rv"]["b"].get("const"):
+                        a_l = opl(st["rv"]["a"])
+                        srcs = {a_l}
+                        for s2 in pb["stmts"]:
+                            if s2["k"] == "assign" and not s2["place"]["p"] and s2["place"]["l"] == a_l and s2["rv"].get("k") == "use":
+                                srcs.add(opl(s2["rv"]["op"]))
+                        chain = {l}
+                        for s2 in bb["stmts"]:
+                            if s2["k"] == "assign" and not s2["place"]["p"] and s2["place"]["l"] in chain and s2["rv"].get("k") == "use":
+                                chain.add(opl(s2["rv"]["op"]))
+                        true_targets = [tm["otherwise"]] if all(int(v) == 0 for v, _ in tm["targets"]) else []
+                        if (srcs & chain) and s["bb"] in true_targets:
+                            bound = int(st["rv"]["b"]["const"]["v"]) - 1
+    return bound is not None and bound >= 0 and k + bound <= hi
 
 
 def const_arith_is_safe(prog, s):
@@ -460,9 +632,11 @@ def _shape_signature(prog, key):
             kinds.append("version")
         elif ts.startswith("&mut std::fmt::Formatter"):
             kinds.append("fmt")
+        elif ts == "bool":
+            kinds.append("bool")
         else:
             return None
-    if kinds.count("set") != 1 or kinds.count("version") > 1 or kinds.count("fmt") > 1:
+    if kinds.count("set") != 1 or kinds.count("version") > 1 or kinds.count("fmt") > 1 or kinds.count("bool") > 2:
         return None
     return kinds
 
@@ -483,7 +657,7 @@ def unreachable_arms(prog, env, rep, sites=()):
             continue
         sig = _shape_signature(prog, key)
         if sig is None:
-            rep.inconc("D-INV: %s does not have the (&BoundSet[, &Version][, &mut Formatter]) signature" % key)
+            rep.inconc("D-INV: %s does not have the (&BoundSet[, &Version][, bool][, &mut Formatter]) signature" % key)
             res.append(Family(key, "D-INV", "", [key], None))
             continue
         good = True
@@ -492,7 +666,10 @@ def unreachable_arms(prog, env, rep, sites=()):
         for lo in intervals.SHAPES:
             for up in intervals.SHAPES:
                 names = [x for x, s_ in (("lo", lo), ("up", up)) if s_ != "U"] + (["v"] if "version" in sig else [])
-                for w in intervals.weak_orders(names) if names else [{}]:
+                import itertools as _it
+                for w, flags in _it.product(list(intervals.weak_orders(names)) if names else [{}],
+                                            list(_it.product((False, True), repeat=sig.count("bool")))):
+                    flags = list(flags)
                     lob = ("L", lo, intervals.vtok("lo", w["lo"]) if lo != "U" else None)
                     upb = ("U", up, intervals.vtok("up", w["up"]) if up != "U" else None)
                     run = intervals.Run(prog, env)
@@ -503,6 +680,8 @@ def unreachable_arms(prog, env, rep, sites=()):
                             args.append(Ptr(Cell(bs)))
                         elif k == "version":
                             args.append(Ptr(Cell(V.gate_token("v", w["v"], False, (0, 0, 0), prog))))
+                        elif k == "bool":
+                            args.append(flags.pop(0))
                         else:
                             args.append(Ptr(Cell(Formatter())))
                     st, val = run.call(key, args)
